@@ -14,8 +14,8 @@ def run(tier, replay):
     try:
         th = tier == "thorough"
         m = ec.run_profile(chk, binp, "c07", 3200 if not th else 80000, sd, thorough=th)
-        # enumeration of all digraphs on 3 keys over {absent, static, dynamic} edges (729) and on 4 keys over static edges (4096)
-        total = 4825
+        # enumeration of all digraphs on 3 keys over {absent, static, dynamic, discovered-at-completion} edges (4096) and on 4 keys over static edges (4096)
+        total = 8192
         if th:
             me = ec.run_profile(chk, binp, "c07e", total, sd, label="enum")
             chk.cov["exhaustive"] = False
@@ -34,7 +34,9 @@ def run(tier, replay):
                            "exactly one cycleDetected, any other build must not stall; every reported list is validated edge by edge against what the observer saw "
                            "(first = requested key, last repeats, every pair is an unprovided request of a live task or a recorded dependency of a rule being scanned, "
                            "no key already up to date); random cyclic programs with histories that flip dynamic requests and leave recorded dependencies behind, "
-                           "3 schedules each, cycle breaking opted in (ForceBuild) for a quarter of the cases; plus enumerated small digraphs")
+                           "3 schedules each, cycle breaking opted in (ForceBuild) for a quarter of the cases; tasks may also report a computed key (any, also one that depends on them) as a "
+                           "discovered dependency at completion, which is recorded and closes cycles that exist only in the scan of a later build (no task in flight); "
+                           "plus enumerated small digraphs over {absent, static, dynamic, discovered} edges")
         chk.assumptions = ["shouldResolveCycle answers true only for ForceBuild, never SupplyPriorValue"]
     finally:
         shutil.rmtree(sd, ignore_errors=True)
